@@ -8,7 +8,7 @@
    That every file written by the current code decodes to the content that went in, and that the
    current reader answers the frozen corpus unchanged, is decided by the correspondence run. *)
 From Coq Require Import List NArith.
-Require Import ZV.Bytes ZV.Kernel ZV.Footer ZV.Streams ZV.Chunks ZV.Stored ZV.Opt ZV.Spec ZV.Layout ZV.LayoutProof.
+Require Import ZV.Bytes ZV.Kernel ZV.Footer ZV.Streams ZV.Chunks ZV.Stored ZV.Opt ZV.Spec ZV.Layout ZV.LayoutProof ZV.WriteRead.
 Import ListNotations.
 Open Scope N_scope.
 
@@ -75,3 +75,21 @@ Theorem C09_chunked_stream_framing : forall (pre : bytes) chunks rest,
   stream_chunks (pre ++ enc_stream chunks ++ rest) (N.of_nat (length pre)) = Some chunks.
 Proof. exact chunked_stream_roundtrip. Qed.
 Print Assumptions C09_chunked_stream_framing.
+
+(* writer and reader composed for one postings list: the imperative chunkedIntCoder (Add closing the
+   previous chunk on a chunk change; Close) fed with the freq/norm entries of all hits and the location
+   blocks of the hits that have locations, framed as writePostings frames a stream, and read back by
+   the frozen reader (stream_chunks + decode_hits), returns exactly the hits - for every strictly
+   ascending list of well-formed hits and every chunk size whose table covers the documents
+   (C01_chunk_index_in_table_partial shows the rule of getChunkSize does) *)
+Theorem C09_postings_write_read : forall ft cs, 0 < cs -> forall total, (0 < total)%nat -> N.of_nat total < max_count ->
+  forall hits : list shit, Sorted.StronglySorted N.lt (map fst hits) -> Forall wf_hit hits ->
+  (forall h, In h hits -> fst h / cs < N.of_nat total) ->
+  forall pre1 rest1 pre2 rest2, pre1 <> [] -> pre2 <> [] ->
+  Forall u64 (LayoutProof.cum_from 0 (map nlenb (chunks_of_coder cs total (fitems hits)))) ->
+  Forall u64 (LayoutProof.cum_from 0 (map nlenb (chunks_of_coder cs total (litems hits)))) ->
+  (Opt.bindo (stream_chunks (pre1 ++ stream_bytes (run cs total (fitems hits)) ++ rest1) (N.of_nat (length pre1))) (fun fch =>
+   Opt.bindo (stream_chunks (pre2 ++ stream_bytes (run cs total (litems hits)) ++ rest2) (N.of_nat (length pre2))) (fun lch =>
+   decode_hits ft cs fch lch (map fst hits) (None, [], [])))) = Opt.mapopt (spec_hit ft) hits.
+Proof. exact postings_write_read. Qed.
+Print Assumptions C09_postings_write_read.
